@@ -85,6 +85,8 @@ type c20Gen struct {
 	nSubmit   int
 	nRefused  int
 	nFlush    int
+	nNoAnchor int    // all-expired batches (committed without an anchor write) seen so far
+	nextNum   uint64 // the ledger's next transaction number after the last flush
 }
 
 func (g *c20Gen) newDID(plan []string) *c20DID {
@@ -615,7 +617,39 @@ func (g *c20Gen) doFlush(force bool) {
 	w.flush(force)
 	g.nFlush++
 	g.r.Count("flush", fmt.Sprintf("force=%v batches=%d", force, len(w.batches)-before))
+	// F16: batches whose operations have all expired: committed without an anchor write (no transaction, no number)
+	beforeNo := g.nNoAnchor
+	nextBefore := g.nextNum
+	g.nNoAnchor = len(w.noAnchor)
+	g.nextNum = w.ledger.next
+	g.r.Count("all_expired_batches_per_flush", fmt.Sprint(g.nNoAnchor-beforeNo))
+	for _, b := range w.noAnchor[beforeNo:] {
+		g.r.Count("all_expired_batch_size", fmt.Sprint(len(b.Removed)))
+		if len(b.Expired) != len(b.Removed) || len(b.Additional) != 0 || len(b.Included) != 0 {
+			g.violation("all_expired_batch_discards_the_whole_batch", fmt.Sprint(*b))
+		}
+		if uint(len(b.Removed)) > b.CurMax {
+			g.violation("batch_not_larger_than_current_max", fmt.Sprint(*b))
+		}
+		for _, id := range b.Removed {
+			if w.reqs[id].AcceptVer != b.Version {
+				g.violation("batch_does_not_mix_protocol_versions", fmt.Sprint(*b))
+			}
+		}
+	}
+	// one transaction (one number) per batch with included operations, none for an all-expired batch
+	if int(g.nextNum-nextBefore) != len(w.batches)-before {
+		g.violation("one_transaction_per_batch_with_included_operations", fmt.Sprintf("%d transaction numbers consumed, %d batches anchored, %d batches entirely expired",
+			g.nextNum-nextBefore, len(w.batches)-before, g.nNoAnchor-beforeNo))
+	}
+	for _, m := range w.internal {
+		g.violation("anchor_write_iff_included_operations", m)
+	}
+	w.internal = nil
 	for _, b := range w.batches[before:] {
+		if len(b.Included) == 0 {
+			g.violation("no_empty_transaction", fmt.Sprint(*b))
+		}
 		g.r.Count("batch_size_removed", fmt.Sprint(len(b.Removed)))
 		g.r.Count("batch_size_included", fmt.Sprint(len(b.Included)))
 		if len(b.Additional) > 0 {
@@ -650,6 +684,9 @@ func (g *c20Gen) doFlush(force bool) {
 	w.failed = nil
 	bs := []c20Batch{}
 	for _, b := range w.batches[before:] {
+		bs = append(bs, *b)
+	}
+	for _, b := range w.noAnchor[beforeNo:] {
 		bs = append(bs, *b)
 	}
 	g.addStep(emit.App("EFlush", emit.Bool(force), zl(ex)), g.fullObservation(false),
@@ -820,6 +857,21 @@ func (g *c20Gen) randomRun() {
 			default:
 				g.doTime(uint64(1 + rng.Intn(10)))
 			}
+		case x < 67:
+			// F16: a burst of windowed operations that have all expired when their batch is cut.  Starting from an empty
+			// queue the batches of the next step are entirely expired (no transaction); otherwise partly
+			if rng.Intn(2) == 0 {
+				g.doFlush(true)
+				g.doObserve()
+			}
+			for _, d := range g.dids[:nd] {
+				if d.created && !d.intended.deact && d.nextK < len(d.keys)-5 && rng.Intn(3) > 0 {
+					rq, adv := g.build(d, []string{"Uwin", "Uwin", "Rwin"}[rng.Intn(3)])
+					g.doSubmit(d, rq, adv)
+				}
+			}
+			g.doTime(uint64(45 + rng.Intn(20))) // every explicit window (at most now+42) has passed
+			g.doFlush(rng.Intn(4) > 0)
 		case x < 80:
 			g.doFlush(rng.Intn(5) > 1)
 		case x < 90:
@@ -883,6 +935,34 @@ func (g *c20Gen) directed(name string) {
 		rq, adv = g.build(d, "Uwin")
 		g.doSubmit(d, rq, adv)
 		g.doTime(100)
+		g.doFlush(true)
+		g.doObserve()
+	case "all-expired": // F16: whole batches of expired operations (no transaction), then a partly expired one
+		var ds []*c20DID
+		for i := 0; i < 3; i++ {
+			d := g.newDID([]string{"C", "Uwin", "U"})
+			ds = append(ds, d)
+			rq, adv := g.build(d, "C")
+			g.doSubmit(d, rq, adv)
+		}
+		g.doFlush(true)
+		g.doObserve()
+		for _, d := range ds {
+			rq, adv := g.build(d, "Uwin")
+			g.doSubmit(d, rq, adv)
+		}
+		g.doTime(100)
+		g.doFlush(false) // limit 2: the drain loop cuts [Uwin; Uwin] - entirely expired
+		g.doObserve()
+		e := g.newDID([]string{"C"})
+		rq, adv := g.build(e, "C")
+		g.doSubmit(e, rq, adv)
+		g.doFlush(true) // [Uwin; C]: partly expired - one transaction holding the create
+		g.doObserve()
+		for _, d := range ds {
+			rq, adv := g.build(d, "U")
+			g.doSubmit(d, rq, adv)
+		}
 		g.doFlush(true)
 		g.doObserve()
 	case "deactivated": // operations after a deactivation: refused once it is visible, inert before
@@ -964,6 +1044,7 @@ func runC20(c *ctx) error {
 		r.Count("submissions_per_run", fmt.Sprint(g.nSubmit/5*5)+"+")
 		r.Count("refused_per_run", fmt.Sprint(g.nRefused))
 		r.Count("batches_per_run", fmt.Sprint(len(g.w.batches)))
+		r.Count("all_expired_batches_per_run", fmt.Sprint(len(g.w.noAnchor)))
 		r.Count("versions", fmt.Sprintf("%d by_time=%v", len(cfg.Versions), cfg.ByTime))
 		var us []string
 		for _, t := range cfg.Unpub {
@@ -978,7 +1059,7 @@ func runC20(c *ctx) error {
 	two := []c20Version{{Genesis: 0, MDelta: 7200, Max: 2}, {Genesis: 1100, MDelta: 600, Max: 4}}
 	oneV := []c20Version{{Genesis: 0, MDelta: 7200, Max: 2}}
 	all := []operation.Type{operation.TypeCreate, operation.TypeUpdate, operation.TypeRecover, operation.TypeDeactivate}
-	for _, name := range []string{"reorder", "big-batch", "duplicates", "expiry", "deactivated"} {
+	for _, name := range []string{"reorder", "big-batch", "duplicates", "expiry", "all-expired", "deactivated"} {
 		one(c20Config{Versions: oneV, T0: 1000}, name)
 		one(c20Config{Versions: two, T0: 1000, Unpub: all}, name)
 		one(c20Config{Versions: two, T0: 1000, ByTime: true, Unpub: []operation.Type{operation.TypeCreate}}, name)
